@@ -24,6 +24,7 @@ COMPILER_REPLAYS = {
     "u_art": ["replay/c15/foreign_core.sh"],
     "u_scope": ["replay/c05/run.sh", "replay/c05/shadow_toplevel.sh", "replay/c05/duplicate_params.sh", "replay/c05/ctor_shadows_param.sh", "replay/c06/crossfile_ctor.sh", "replay/c16/let_annotation.sh"],
     "u_closenv": ["replay/c08/run.sh"],
+    "u_envname": ["replay/c08/env_names.sh"],
     "u_liftty": ["replay/c08/nested_tuple.sh", "replay/c08/closure_callee.sh", "replay/c08/closure_returns_closure.sh", "replay/c08/nested_tuple_literal.sh"],
     "u_tastlit": ["replay/c10/run.sh"],
     "u_fmtverb": ["replay/c10/float_to_string.sh"],
